@@ -1,7 +1,8 @@
 (* C09 property theorems: the reported critical path is a maximum-weight path of the graph. *)
 From HTA.lib Require Import Base Dag.
 From HTA.model Require Import C08_Model.
-From HTA.proof Require Import C08_Proofs.
+From HTA.gen Require Import PathSets_gen.
+From HTA.proof Require Import C08_Proofs C09_RulesTie.
 Open Scope Z_scope.
 
 (* a potential function valid on every edge bounds the weight of EVERY path (any number of nodes and edges) *)
@@ -40,3 +41,12 @@ Definition g09 : list edge := [mkEdge 0 1 2; mkEdge 1 3 2; mkEdge 0 2 1; mkEdge 
 Definition n09 : list cpnode := [mkN 0 10 0 true false; mkN 1 11 2 true false; mkN 2 12 1 true false; mkN 3 10 6 false false; mkN 4 11 9 false false].
 Example C09_nonvacuous : check_C09 n09 g09 [0; 1; 2; 3; 4] [0; 2; 3; 4] [[0; 2]; [2; 3]; [3; 4]] [10; 11; 12] = [true; true; true; true; true; true; true].
 Proof. vm_compute. reflexivity. Qed.
+
+(* the sets the checker compares the reported edge and event sets with are built the way CPGraph.critical_path builds them, read from
+   the source on every run (strict statement-by-statement reading: the events set is REBUILT and the edge set RESET on every call) *)
+Theorem C09_path_sets_follow_source : forall (N : list cpnode) (p : list Z),
+  pairs_of p = path_pairs_gen p /\
+  flat_map (fun i => match find_node N i with Some n => [c_ev n] | None => [-7] end) p =
+    path_events_gen (fun i => match find_node N i with Some n => [c_ev n] | None => [-7] end) p.
+Proof. exact path_sets_are_generated. Qed.
+Print Assumptions C09_path_sets_follow_source.
